@@ -860,6 +860,83 @@ def rule_e9(repo, col):
     col.floor("E9.dictionary_reads", n, 5)
 
 
+def _class_tests(repo, module, paths, var, K):
+    """scenario mapping for the class tests on `var` that occur in the path conditions, when var is an instance of exactly class K (ClassInfo):
+    isinstance(var, C) / isinstance(var, (C, D)) -> K below C; type(var) == C / type(var) is C -> K is C"""
+    from ..index import ClassInfo
+
+    mro = [k for k in repo.mro(K) if isinstance(k, ClassInfo)]
+    out = {}
+
+    def cls_of(e):
+        r = repo.resolve_name(module, norm(e)) if isinstance(e, ast.Name) else None
+        return r[1] if r is not None and r[0] == "class" else None
+    for p_ in paths:
+        for s_, _, _ in p_.conds:
+            try:
+                e = ast.parse(s_, mode="eval").body
+            except SyntaxError:
+                continue
+            for x in ast.walk(e):
+                if isinstance(x, ast.Call) and dotted(x.func) == "isinstance" and len(x.args) == 2 and norm(x.args[0]) == var:
+                    cs = x.args[1].elts if isinstance(x.args[1], ast.Tuple) else [x.args[1]]
+                    cl = [cls_of(c_) for c_ in cs]
+                    if all(c_ is not None for c_ in cl):
+                        out[norm(x)] = any(c_ in mro for c_ in cl)
+                if isinstance(x, ast.Compare) and len(x.ops) == 1 and isinstance(x.ops[0], (ast.Eq, ast.Is, ast.NotEq, ast.IsNot)) and norm(x.left) == "type(%s)" % var:
+                    c_ = cls_of(x.comparators[0])
+                    if c_ is not None:
+                        v = c_ is K
+                        out[norm(x)] = v if isinstance(x.ops[0], (ast.Eq, ast.Is)) else not v
+    return sorted(out.items())
+
+
+def rule_e10(repo, col):
+    """LogicProgram.add_statement: a statement (or a head of a multi-head statement) that is a Term of a special kind - a variable, a number or string, a conjunction, a negation -
+    is refused with a GroundingError; only a plain Term becomes a fact (class-dispatch table over the Term hierarchy; `type(x) == Term` and `isinstance(x, Term)` differ on subclasses)"""
+    from .. import dtable
+    from ..index import ClassInfo
+
+    f = repo.func("problog.program", "LogicProgram.add_statement")
+    m = f.module
+    stmt = f.params[1]
+    term = repo.cls("problog.logic", "Term")
+    special = [repo.cls("problog.logic", k) for k in ("Var", "Constant", "And", "Not")]
+    paths = dtable.extract(f.node, opaque_loops=True)
+    n = 0
+    for K in [term] + special:
+        mapping = _class_tests(repo, m, paths, stmt, K)
+        ps = dtable.compatible(paths, mapping)
+        ps = [p_ for p_ in ps if all(dtable.eval_atom(s_, mapping, None) is not None or "isinstance(" not in s_ and "type(" not in s_ for s_, _, _ in p_.conds)]
+        if not ps:
+            raise AnalysisError("add_statement: no path for a statement of class %s" % K.name)
+        facts = [p_ for p_ in ps if any(fn in ("self.add_fact", "self.add_clause") for fn, _, _ in p_.calls)]
+        n += 1
+        if K is term:
+            col.decide("E10", m, f.node, bool(facts) and all(p_.end != "raise" for p_ in facts), "a plain Term statement is added as a fact",
+                       "add_statement does not add a plain Term as a fact", construct="add_statement: statement of class Term", function="LogicProgram.add_statement")
+        else:
+            col.decide("E10", m, f.node, not facts and all(p_.end == "raise" and "GroundingError" in (p_.value or "") for p_ in ps), "a %s statement is refused with a GroundingError" % K.name,
+                       "add_statement accepts a statement that is a %s (a subclass of Term) and hands it to add_fact / add_clause: the clause compiler then fails on it with an internal "
+                       "AttributeError / TypeError ('X.' or '0.4::X.' at the top level) instead of the GroundingError 'Unexpected fact'" % K.name,
+                       construct="add_statement: statement of class %s" % K.name, function="LogicProgram.add_statement")
+    # heads of a multi-head statement
+    loops = [lp for lp in ast.walk(f.node) if isinstance(lp, ast.For) and isinstance(lp.target, ast.Name) and any(isinstance(x, ast.Raise) for x in ast.walk(lp))]
+    if len(loops) != 1:
+        raise AnalysisError("add_statement: check of the heads of a multi-head statement not found")
+    hv = loops[0].target.id
+    hp = dtable.extract_block(loops[0].body, opaque_loops=True)
+    for K in special:
+        mapping = _class_tests(repo, m, hp, hv, K)
+        ps = dtable.compatible(hp, mapping)
+        ps = [p_ for p_ in ps if all(dtable.eval_atom(s_, mapping, None) is not None or "isinstance(" not in s_ and "type(" not in s_ for s_, _, _ in p_.conds)]
+        n += 1
+        col.decide("E10", m, loops[0], bool(ps) and all(p_.end == "raise" and "GroundingError" in (p_.value or "") for p_ in ps), "a head that is a %s is refused with a GroundingError" % K.name,
+                   "add_statement lets a head of class %s through its head check: '0.4::a; 0.3::X.' then fails in the clause compiler with an internal error instead of a GroundingError" % K.name,
+                   construct="add_statement: head of class %s" % K.name, function="LogicProgram.add_statement")
+    col.floor("E10.class_rows", n, 9)
+
+
 def run(repo, col):
     col.rule("E9", "no contradictory key beliefs about a local dictionary (.get here, [k] there)")
     col.rule("E8", "the error-location formatter tolerates locations without an offset")
@@ -879,3 +956,5 @@ def run(repo, col):
     rule_e7(repo, col)
     rule_e8(repo, col)
     rule_e9(repo, col)
+    col.rule("E10", "statements of a special Term kind are refused with a ProbLog error")
+    rule_e10(repo, col)
